@@ -1,4 +1,4 @@
-import PilotaModel.Lemmas.IdlEnum
+import PilotaModel.Lemmas.IdlService
 /-
   C15: items and the document loop (`many_till(tuple((opt(blank), Item::parse, opt(blank))), eof)`).
 -/
@@ -9,13 +9,14 @@ def Item.supported : Item → Bool
   | .include _ | .cppInclude _ | .namespace _ | .typedef _ | .enum _ => true
   | .constant c => c.value.supported
   | .struct s | .union s | .exception s => s.supported
-  | .service _ => false
+  | .service s => s.supported
 
 def Item.depth : Item → Nat
   | .typedef t => t.ty.depth
   | .constant c => c.depth
   | .struct s | .union s | .exception s => s.depth
   | .enum _ => 1
+  | .service s => s.depth
   | _ => 0
 
 def File.depth (f : File) : Nat := (f.items.map Item.depth).foldl max 0
@@ -146,7 +147,16 @@ theorem item_rt {it : Item} (hw : it.wf = true) (hs : it.supported = true) {d : 
     simp only [List.cons.injEq, Char.reduceEq, false_and, and_false, if_false, if_true, reduceIte]
     rw [htext]
     exact pmap_of_ok h
-  | .service _, _, hs, _ => simp [Item.supported] at hs
+  | .service s, hw, hs, hd =>
+    obtain ⟨g, hg, h⟩ := service_rt (s := s) hw hs hd last l hR
+    refine ⟨g, hg, ?_⟩
+    have hk : itemKeyword ((rItem (.service s) last l).1 ++ R) = .ok cs!"service" ((rItem (.service s) last l).1 ++ R) := by
+      simp only [rItem, rService, rSeq_fst, rLit_fst, List.append_assoc]
+      exact itemKeyword_rt (by decide) (by decide) (keyword_then_blank cs!"service" _ _)
+    unfold Item.parse
+    rw [andThen_of_ok hk]
+    simp only [List.cons.injEq, Char.reduceEq, false_and, and_false, if_false, if_true, reduceIte]
+    exact pmap_of_ok h
 
 /-! ### the document loop -/
 
